@@ -115,6 +115,17 @@ def _off_axis(z, ra, dec):
     return float(sphere.sep(z.crval[0], z.crval[1], ra, dec))
 
 
+def _pixel_in_domain(z, x, y):
+    """a pixel position (Aegean order: x = FITS axis 2, y = FITS axis 1) whose intermediate world coordinates lie
+    within DOM_POS degrees of the reference point.  Far outside that (a fit error of 1e8 pixels fed to pix2sky) the
+    oracle's distance wraps around the sphere and a NaN from the subject is the right answer, not a violation."""
+    d1 = float(y) - z.crpix[0]
+    d2 = float(x) - z.crpix[1]
+    u = z.cd[0, 0] * d1 + z.cd[0, 1] * d2
+    v = z.cd[1, 0] * d1 + z.cd[1, 1] * d2
+    return float(np.hypot(u, v)) <= DOM_POS
+
+
 def _square(z):
     return abs(abs(z.cd[0, 0]) - abs(z.cd[1, 1])) <= 1e-9 * abs(z.cd[0, 0])
 
@@ -156,7 +167,7 @@ def post_pix2sky(self, pixel, result):
         o.count('nonfinite_input')
         return True
     rra, rdec = z.pix2sky(y, x)
-    if not (_fin(rra, rdec) and _off_axis(z, rra, rdec) <= DOM_POS):
+    if not (_pixel_in_domain(z, x, y) and _fin(rra, rdec) and _off_axis(z, rra, rdec) <= DOM_POS):
         o.count('position_out_of_domain')
         return True
     o.count('contract_pix2sky')
@@ -282,7 +293,8 @@ def post_pix2sky_vec(self, pixel, r, theta, result):
     y1 = y + r * np.sin(np.radians(theta))
     ra0, dec0 = z.pix2sky(y, x)
     lref, pref = _skyvec(z, x, y, x1, y1)
-    if not (_fin(ra0, dec0, lref) and _off_axis(z, ra0, dec0) <= DOM_POS and lref <= DOM_VEC_LEN):
+    if not (_pixel_in_domain(z, x, y) and _pixel_in_domain(z, x1, y1) and _fin(ra0, dec0, lref)
+            and _off_axis(z, ra0, dec0) <= DOM_POS and lref <= DOM_VEC_LEN):
         o.count('vector_out_of_domain')
         return True
     if not (r >= 1e-4 and lref >= 1e-9):
@@ -388,7 +400,8 @@ def post_pix2sky_ellipse(self, pixel, sx, sy, theta, result):
     ra0, dec0 = z.pix2sky(y, x)
     lmaj, pmaj = _skyvec(z, x, y, x + sx * np.cos(t), y + sx * np.sin(t))
     lmin, _ = _skyvec(z, x, y, x + sy * np.cos(t - np.pi / 2), y + sy * np.sin(t - np.pi / 2))
-    if not (_fin(ra0, dec0, lmaj, lmin) and _off_axis(z, ra0, dec0) <= DOM_ELL_OFF
+    if not (_pixel_in_domain(z, x, y) and _pixel_in_domain(z, x + sx * np.cos(t), y + sx * np.sin(t))
+            and _fin(ra0, dec0, lmaj, lmin) and _off_axis(z, ra0, dec0) <= DOM_ELL_OFF
             and max(lmaj, lmin) <= DOM_ELL_LEN):
         o.count('ellipse_out_of_domain')
         return True
